@@ -378,3 +378,17 @@ def stmt(pn: List[int], rn: List[int], lan: int, lrn: int, pp: List[int], rp: Li
     except Exception:  # noqa: BLE001
         ok = False
     return fin(M, ok, pn=pn, rn=rn, lan=lan, lrn=lrn, pp=pp, rp=rp, lap=lap, lrp=lrp, pd=pd, rd=rd, lad=lad, lrd=lrd, ch=ch)
+
+
+def probe():
+    """internal attributes this harness installs / reads (a refactor that renames them makes the unit SKIP, not fail)"""
+    e = LookupEncoder(lookup_size=2)
+    e.lookup.data, e.lookup._evicting, e.lookup.max_size, e.last_assigned_index, e.last_reused_index  # noqa: B018
+    e.lookup.data.move_to_end
+    d = LookupDecoder(lookup_size=2)
+    d.data, d.last_assigned_index, d.last_reused_index, d.lookup_size  # noqa: B018
+    d.data.maxlen
+    from pyjelly.serialize.encode import TermEncoder
+    t = TermEncoder()
+    t.names, t.prefixes, t.datatypes  # noqa: B018
+    Decoder.decode_row, Decoder.iter_rows  # noqa: B018
